@@ -1807,6 +1807,8 @@ func main() {
 	switch os.Args[1] {
 	case "reent":
 		reentMatrix(tw, res, *hooks)
+	case "panics": // user code called by the SDK panics (panic.go, SpanPanic.tla)
+		panicsMode(*n, *in, tw, res, *hooks)
 	case "bulk":
 		bulk(*n, *enders, tw, res)
 		res.Executed = int64(*n + *n/8 + 2**n/3*3 + *n/4)
